@@ -31,17 +31,14 @@
    implementation's float is within relative 1e-15 of it in the normal range — tolerance
    comparison only, never claimed exact).
 
-   TWO PLACES WHERE THE MODEL IS THE *REPAIRED* BEHAVIOUR (see the C11 report):
-   (a) int(digits, base) of CPython accepts a second "0b"/"0B" prefix inside the digits
-       when base = 2 ("0b0b1" lexes as 1).  The model's [horner] rejects any digit >= base
-       (BadNumberError), which is what the spelling means.
-   (b) a decimal literal with an exponent is computed by the code in two float steps,
-       float(mantissa) * 10**e  or  * float(Fraction(1, 10**-e)); the intermediate power can
-       leave the float range although the literal's value is inside it: 15.0e308 gives inf,
-       0.0001e310 (= 1e306) is a BadNumberError because 10**310 does not fit a float, and
-       123456789012345678901234.5e-323 is 1.2 per cent off because 1e-323 is subnormal.
-       The model is the single correctly rounded conversion of the whole spelling: the exact
-       rational, and BadNumberError exactly when that rounds to infinity ([flt_overflow]). *)
+   Based literals: every digit is checked against the base before int() is called
+   (tokens.py: any(int(c, 16) >= base ...)), so "0b0b1" is a BadNumberError although CPython's
+   int("0b1", 2) would accept the inner prefix: [horner] rejects any digit >= base.
+   Decimal literals: the whole spelling, exponent included, is converted by one float() call
+   (one correctly rounded step) and an infinite result is a BadNumberError: the model is the
+   exact rational of the spelling, and BadNumberError exactly when that rounds to infinity
+   ([flt_overflow]).  Both are repairs made after this check reported "0b0b1" = 1,
+   15.0e308 = inf, 0.0001e310 rejected and 123456789012345678901234.5e-323 off by 1.2%. *)
 From Ka Require Export Model.Prelude.
 From Coq Require Import NArith Ascii.
 From Ka Require Import Gen.GenTokens.
@@ -190,49 +187,62 @@ Definition exp_match (r : text) : option (bool * text * nat) :=
 Definition nres_of (n : nat) (o : option lit) : nres :=
   match o with Some v => NOk n v | None => NBad end.
 
-Definition read_num (r : text) : nres :=
-  if based_window r then
-    match r with
-    | _ :: bc :: t =>
-        let hs := takew is_hex t in
-        nres_of (2 + List.length hs) (option_map LInt (horner (base_of bc) hs 0%Z))
-    | _ => NBad
-    end
+Definition is_nil (t : text) : bool := match t with [] => true | _ :: _ => false end.
+Definition starts_dot (r : text) : bool := match r with c :: _ => (c =? ch_dot)%N | [] => false end.
+
+(* based literal: group 1 = the base character, group 2 = the maximal hex run *)
+Definition read_based (r : text) : nres :=
+  match r with
+  | _ :: bc :: t =>
+      let hs := takew is_hex t in
+      nres_of (2 + List.length hs) (option_map LInt (horner (base_of bc) hs 0%Z))
+  | _ => NBad
+  end.
+
+(* the value of a matched NUM_REGEX spelling: integer digits d1, "." present?, fraction
+   digits d2, exponent (negative sign?, digits) *)
+Definition mantissa (d1 d2 : text) : Q :=
+  (dec_val (d1 ++ d2)%list # Z.to_pos (10 ^ Z.of_nat (List.length d2)))%Q.
+
+Definition num_value (d1 : text) (dot : bool) (d2 : text) (ex : option (bool * text)) : option lit :=
+  match ex with
+  | None => if dot then mk_flt (mantissa d1 d2) else Some (LInt (dec_val d1))
+  | Some (neg, es) =>
+      let e := dec_val es in
+      if dot then
+        (* float(whole spelling): one correctly rounded conversion *)
+        if neg then mk_flt (mantissa d1 d2 / inject_Z (10 ^ e))%Q
+        else mk_flt (mantissa d1 d2 * inject_Z (10 ^ e))%Q
+      else
+        (* int * Fraction(1, 10**-exponent) when exponent < 0, else int * 10**exponent *)
+        if neg && (0 <? e)%Z
+        then Some (LFrac (Qred (dec_val d1 # Z.to_pos (10 ^ e))%Q))
+        else Some (LInt (dec_val d1 * 10 ^ e)%Z)
+  end.
+
+(* NUM_REGEX.  Group 1 is alternative A  [0-9]+\.?[0-9]*  when the first character is a
+   digit, otherwise alternative B  [0-9]*\.?[0-9]+  (which then needs ".<digit>"); all
+   quantifiers are greedy and what follows is optional, so no backtracking into them occurs. *)
+Definition read_dec (r : text) : nres :=
+  let d1 := takew is_digit r in
+  let r1 := dropw is_digit r in
+  let dot := starts_dot r1 in
+  let r2 := if dot then tl r1 else r1 in
+  let d2 := takew is_digit r2 in
+  let r3 := dropw is_digit r2 in
+  if is_nil d1 && is_nil d2 then NBad                   (* NUM_REGEX does not match *)
   else
-    (* group 1: alternative A  [0-9]+\.?[0-9]*  when the first character is a digit,
-       otherwise alternative B  [0-9]*\.?[0-9]+  (which then needs ".<digit>") *)
-    let d1 := takew is_digit r in
-    let r1 := dropw is_digit r in
-    let dot := match r1 with c :: _ => (c =? ch_dot)%N | [] => false end in
-    let r2 := if dot then tl r1 else r1 in
-    let d2 := takew is_digit r2 in
-    let r3 := dropw is_digit r2 in
-    match d1, d2 with
-    | [], [] => NBad                                    (* NUM_REGEX does not match *)
-    | _, _ =>
-        let nm := List.length d1 + (if dot then 1 else 0) + List.length d2 in
-        let mant : Q := (dec_val (d1 ++ d2)%list # Z.to_pos (10 ^ Z.of_nat (List.length d2)))%Q in
-        match exp_match r3 with
-        | None =>
-            if dot then
-              (* the "1.." rule: the match ends in '.' and another '.' follows *)
-              match d2, r3 with
-              | [], c :: _ => if (c =? ch_dot)%N then NOk (List.length d1) (LInt (dec_val d1))
-                              else nres_of nm (mk_flt mant)
-              | _, _ => nres_of nm (mk_flt mant)
-              end
-            else NOk nm (LInt (dec_val d1))
-        | Some (neg, es, k) =>
-            let e := dec_val es in
-            if dot then
-              if neg then nres_of (nm + k) (mk_flt (mant / inject_Z (10 ^ e))%Q)
-              else nres_of (nm + k) (mk_flt (mant * inject_Z (10 ^ e))%Q)
-            else
-              if neg && (0 <? e)%Z
-              then NOk (nm + k) (LFrac (Qred (dec_val d1 # Z.to_pos (10 ^ e))%Q))
-              else NOk (nm + k) (LInt (dec_val d1 * 10 ^ e)%Z)
-        end
+    let nm := List.length d1 + (if dot then 1 else 0) + List.length d2 in
+    match exp_match r3 with
+    | None =>
+        (* the "1.." rule: the match ends in '.' and another '.' follows: give the dot back *)
+        if dot && is_nil d2 && starts_dot r3 then NOk (List.length d1) (LInt (dec_val d1))
+        else nres_of nm (num_value d1 dot d2 None)
+    | Some (neg, es, k) => nres_of (nm + k) (num_value d1 dot d2 (Some (neg, es)))
     end.
+
+Definition read_num (r : text) : nres :=
+  if based_window r then read_based r else read_dec r.
 
 (* ---------------------------------------------------------------- strings, instants *)
 (* [str_end r]: r is the text after the opening quote; the relative index of the closing
@@ -348,10 +358,11 @@ Section Lexer.
 
   Definition tokenise (s : text) : lres (list token) := toks (S (List.length s)) 0 s.
 
-  (* The characters the lexer gives a meaning to: delimiters, the dot, identifier
+  (* The characters the lexer gives a meaning to: delimiters, the dot, the signs, identifier
      characters (letters, digits, _, currency signs) and every character of a constant token. *)
   Definition sig_char (c : N) : bool :=
-    (c =? ch_quote)%N || (c =? ch_hash)%N || (c =? ch_dot)%N || ident_char c
+    (c =? ch_quote)%N || (c =? ch_hash)%N || (c =? ch_dot)%N || (c =? ch_plus)%N || (c =? ch_minus)%N
+    || ident_char c
     || existsb (existsb (N.eqb c)) ctoks.
 
   (* Everything the proofs assume about str.isspace / isalpha / isnumeric, per character:
@@ -365,6 +376,35 @@ Section Lexer.
     && implb (is_digit c) (isnumeric c)
     && implb (c =? ch_dot)%N (negb (isnumeric c)).
 End Lexer.
+
+(* ---------------------------------------------------------------- decidable table conditions
+   (established for the regenerated table in GenFacts/TokenTableFacts.v, hypotheses of the
+   general lemmas in Proofs/LexerProofs.v) *)
+Definition all_nonempty (tbl : list text) : bool :=
+  forallb (fun t => match t with [] => false | _ :: _ => true end) tbl.
+(* ALPHA_TOKENS = the members of CONST_TOKENS made of ASCII letters only *)
+Definition alpha_consistent (ctoks atoks : list text) : bool :=
+  forallb (fun t => Bool.eqb (mem t atoks) (forallb is_letter t)) ctoks.
+Definition proper_prefix (a b : text) : bool :=
+  starts_with a b && (List.length a <? List.length b).
+(* "if token A is a prefix of token B, then it comes after B": for every A listed before B,
+   A is not a proper prefix of B — unless A is an alphabetic token and B continues with a
+   letter, in which case the keyword-boundary test rejects A wherever B matches. *)
+Fixpoint order_ok (atoks tbl : list text) : bool :=
+  match tbl with
+  | [] => true
+  | a :: tl =>
+      forallb (fun b => negb (proper_prefix a b)
+                        || (mem a atoks && is_letter (nth (List.length a) b 0%N))) tl
+      && order_ok atoks tl
+  end.
+(* the pairs (A, B), A listed before B, A a proper prefix of B: the literal reading of the
+   comment in tokens.py asks for none *)
+Fixpoint order_exceptions (tbl : list text) : list (text * text) :=
+  match tbl with
+  | [] => []
+  | a :: tl => map (fun b => (a, b)) (filter (proper_prefix a) tl) ++ order_exceptions tl
+  end.
 
 (* ---------------------------------------------------------------- the regenerated tables *)
 Definition gen_ctoks : list text := map utf8_of_string const_tokens.
